@@ -148,6 +148,20 @@ pub fn transforms(nodes: &[Node], fragmented: bool) -> Vec<(String, Vec<Node>)> 
             let mut q = idx.clone();
             q.reverse();
             perms.push(q);
+            // every child moved to the front / to the end (e.g. an optional table after all mandatory ones)
+            for i in 0..idx.len() {
+                let mut q = idx.clone();
+                let x = q.remove(i);
+                q.push(x);
+                perms.push(q);
+                let mut q = idx.clone();
+                let x = q.remove(i);
+                q.insert(0, x);
+                perms.push(q);
+            }
+            perms.sort();
+            perms.dedup();
+            perms.retain(|q| *q != idx);
         }
         for q in perms {
             let mut t = nodes.to_vec();
@@ -193,7 +207,7 @@ pub fn transforms(nodes: &[Node], fragmented: bool) -> Vec<(String, Vec<Node>)> 
         if !SPARE_OK.iter().any(|c| **c == n.cc) {
             continue;
         }
-        for extra in [1usize, 8] {
+        for extra in [1usize, 8, 12, 16, 24] {
             let mut t = nodes.to_vec();
             node_at_mut(&mut t, p).spare = vec![0x5c; extra];
             out.push((format!("{} spare byte(s) at the end of {}", extra, path_name(nodes, p)), t));
@@ -299,7 +313,7 @@ fn fragmented_movies() -> Vec<(String, LFragMovie)> {
     let b = pick(&|o| matches!(o.base, Base::Explicit { at_moof: true }) && !o.psd && o.cts.is_none() && o.before && o.tfdt_v == 0 && o.base_time == 5 && o.fdd);
     let c = pick(&|o| o.base == Base::Neither && !o.psd && !o.fdd && o.cts == Some(1) && !o.before && o.tfdt_v == 1 && o.base_time == (1u64 << 32) + 5);
     vec![
-        ("one track, two fragments".to_string(), LFragMovie { movie_ts: 1000, tracks: vec![LFragTrack { id: 1, codec: Codec::Avc, timescale: 12800, trex_default_duration: 9 }], fragments: vec![vec![c09::mk_run(1, &a, 2, 0)], vec![c09::mk_run(1, &c, 2, 1)]], mehd: Some(0), large_moof: false }),
+        ("one track, two fragments".to_string(), LFragMovie { movie_ts: 1000, tracks: vec![LFragTrack { id: 1, codec: Codec::Avc, timescale: 12800, trex_default_duration: 9 }], fragments: vec![vec![c09::mk_run(1, &a, 2, 0)], vec![c09::mk_run(1, &c, 2, 1)]], mehd: Some(0), large_moof: false, offsets_only: false }),
         (
             "two tracks, both in each fragment".to_string(),
             LFragMovie {
@@ -308,6 +322,7 @@ fn fragmented_movies() -> Vec<(String, LFragMovie)> {
                 fragments: vec![vec![c09::mk_run(1, &a, 1, 0), c09::mk_run(2, &b, 2, 1)], vec![c09::mk_run(2, &a, 1, 2), c09::mk_run(1, &b, 1, 3)]],
                 mehd: None,
                 large_moof: false,
+                offsets_only: false,
             },
         ),
     ]
@@ -439,7 +454,7 @@ pub fn run(tier: Tier, seed: u64) -> i32 {
     ev.set("rule", json!("one case = one physical variant of a logical movie: the reference box tree with one (quick) or two (thorough) layout transformations applied at a specific position, re-serialised with dependent offsets recomputed, and opened by the real reader; non-trivial = every per-sample result (offsets shifted by exactly the layout change), track accessor and metadata answer equals the untransformed movie's"));
     ev.set("movies", Value::Array(fams));
     ev.set("exhaustive", json!(true));
-    ev.set("transform_kinds", json!(["insert free / unknown box (compact and 64-bit header) at every child index of the top level and of every iterating container (moov, trak, mdia, minf, stbl, dinf, dref (+entry_count), udta, meta, ilst, items, mvex, moof, traf, avc1, mp4a)", "every permutation (<= 5 children) or all adjacent transpositions + reversal of order-free siblings; mdat before/after moov; hdlr kept first in the version-less QuickTime meta", "64-bit size header on each single box and on all boxes", "1 and 8 spare bytes after the last field of every fixed-layout / table box"]));
+    ev.set("transform_kinds", json!(["insert free / unknown box (compact and 64-bit header) at every child index of the top level and of every iterating container (moov, trak, mdia, minf, stbl, dinf, dref (+entry_count), udta, meta, ilst, items, mvex, moof, traf, avc1, mp4a)", "every permutation (<= 5 children) or all adjacent transpositions + reversal of order-free siblings; mdat before/after moov; hdlr kept first in the version-less QuickTime meta", "64-bit size header on each single box and on all boxes", "1, 8, 12, 16 and 24 spare bytes (incl. whole-entry multiples) after the last field of every fixed-layout / table box"]));
     ev.set("outcome_classes", Value::Object(l.outcomes.iter().map(|(k, v)| (k.clone(), json!(v))).collect()));
     ev.set("samples", Value::Array(l.samples.clone()));
     ev.assume("hev1, vp09, stsd and edts do not iterate over children in the library, so insertion inside them is outside the statement and is not generated");
